@@ -2,6 +2,7 @@ import itertools
 import logging
 import re
 import struct
+import sys
 from hashlib import md5, sha256, sha384, sha512
 from typing import (
     Any,
@@ -1113,9 +1114,10 @@ class PDFDocument:
             log.warning("Circular cross-reference chain at position %d", start)
             return
         visited.add(start)
-        if start < 0:
+        if start < 0 or start > sys.maxsize:
             # e.g. a negative /Prev; seeking there would raise ValueError
-            raise PDFNoValidXRef(f"Invalid negative xref position: {start}")
+            # (OverflowError beyond the largest file offset)
+            raise PDFNoValidXRef(f"Invalid xref position: {start}")
         parser.seek(start)
         parser.reset()
         try:
